@@ -797,6 +797,9 @@ def run_c20(ctx):
         rad = g.r.choice([0.0, 0.5, 1.0, 1.2, 1.42, 1.5, 1.74, 2.0, 2.1, 3.0, 2.5, 4.5, -1.0, float("nan")])
         ops = [{"m": "find_neighbors", "args": [n, d, g.r.randint(0, n - 1), gen.f2b(rad)]}]
         cs.append({"id": "topo-%05d" % i, "api": "topo", "ops": ops})
+    # dimension counts beyond 32 bits (encoded; see harness us()): no neighbourhood, and no endless search for the edge length
+    for k, (n, d, i) in enumerate([(5, -1000, 0), (2, -1000, 1), (100, -1001, 7), (36, -1003, 35), (5, -1, 0), (9, -2, 3)]):
+        cs.append({"id": "topo-hugedims-%d" % k, "api": "topo", "ops": [{"m": "find_neighbors", "args": [n, d, i, gen.f2b(1.5)]}]})
     run_events(ctx, "topo_random", cs, spec="TraceApi")
     run_c20_instr(ctx)
 
